@@ -97,6 +97,22 @@ def tables(rep):
             printed = [origin(ldefs, v_.value) for v_ in js[0].values if isinstance(v_, ast.FormattedValue)] if js else []
             ok = len(printed) == 3 and norm(printed[0]) == its[0].item(0) and norm(printed[1]) == its[0].item(1) and printed[2] is lr[0]
     rep.ob("O10.1", "R3c", w, ok, "label = order_to_label.get(edge[2].get('order', 1), '-')", "left/right bonds are labelled by their own order (source, target, label printed in this order)")
+    # context section: the bonds h_to_explicit adds carry `order` only - an edge without `standard_order` is an unchanged bond for the writer
+    hx = rep.repo.maybe_func(HY, "h_to_explicit")
+    bare = [c for c in walk_local(hx.node) if isinstance(c, ast.Call) and call_name(c) == "add_edge" and kwarg(c, "standard_order") is None
+            and not any(k.arg is None for k in c.keywords)] if hx is not None else []
+    so_reads = [c for c in walk_local(w.node) if isinstance(c, (ast.Call, ast.Subscript)) and (
+        (isinstance(c, ast.Call) and call_name(c) == "get" and c.args and is_const(c.args[0], "standard_order"))
+        or (isinstance(c, ast.Subscript) and isinstance(c.ctx, ast.Load) and is_const(c.slice, "standard_order")))
+        and any(norm(t).replace(" ", "") == f"{SEC}=='context'" and s_ for t, s_ in guards_of(pm, c, w.node))]
+    if bare:
+        for c in so_reads:
+            dflt = c.args[1] if isinstance(c, ast.Call) and len(c.args) > 1 else (kwarg(c, "default") if isinstance(c, ast.Call) else None)
+            okd = dflt is not None and isinstance(dflt, ast.Constant) and not isinstance(dflt.value, bool) and dflt.value == 0
+            rep.ob("O10.1", "R3c", w, okd, c, "in the context section a bond without `standard_order` (the X-H bonds h_to_explicit adds carry `order` only) reads as "
+                   "unchanged: the attribute is read with default 0", {"bare_add_edge_sites_in_h_to_explicit": len(bare)}, node=c)
+        if not so_reads:
+            rep.ob("O10.1", "R3c", w, None, "standard_order", "the context section's test for unchanged bonds was not found")
     use_r = [c for c in walk_local(r.node) if isinstance(c, ast.Call) and norm(c.func) == f"{RT}.get"]
     add = [c for c in walk_local(r.node) if isinstance(c, ast.Call) and call_name(c) == "add_edge"]
     ok = False
